@@ -13,7 +13,7 @@ SEL = ('filter', 'select', 'extra')
 PROPS = {
     'C01': P('payment-token ledger: invariant of exec + claims in any order; correspondence on balances of every call',
              eps=('claim', 'claimPayment', 'confirm', 'blacklist', 'refund', 'confirmNft', 'setPrice'), cats=('bal', 'status'),
-             coq=('Proofs/Ledger.v', 'Proofs/ClaimLedger.v', 'Proofs/Partition.v', 'Proofs/Lifecycle.v', 'Proofs/Setup.v', 'Proofs/SetupGt.v')),
+             coq=('Proofs/Ledger.v', 'Proofs/ClaimLedger.v', 'Proofs/Partition.v', 'Proofs/Lifecycle.v', 'Proofs/Setup.v', 'Proofs/SetupPrice.v', 'Proofs/SetupGt.v')),
     'C02': P('launchpad-token ledger: deposit acceptance iff tpt x (W+R), cover, surplus',
              eps=('deposit', 'claim', 'claimPayment', 'setTpt'), cats=('bal', 'status', 'locks'), views=('deposited', 'tpt', 'nrWinning'),
              coq=('Proofs/Ledger.v', 'Proofs/Reserve.v', 'Proofs/ClaimLedger.v')),
